@@ -190,7 +190,7 @@ class DynEngine(Engine):
   run_fn = 'DynReg.run'
 
   def budget(self, tier):
-    return 400 if tier == 'quick' else 12000
+    return 700 if tier == 'quick' else 12000
 
   def corpus(self):
     a1 = ['import', 'pkga.util', False, None]
@@ -216,6 +216,14 @@ class DynEngine(Engine):
          [DYN, ['import', 'top', False, 'gin']], [DYN, ['bind', '', 'top.g', 'x', 1]]],
         [[DYN, ['import', 'pkga.util', True, None], ['import', 'pkgb.util', True, None], ['bind', '', 'util.f', 'x', 1]],
          [DYN, ['import', 'pkga.util', True, None], ['bind', '', 'util.f', 'y', 2]]],
+        # a plain dotted import reaches a sibling submodule that was never imported by name (pkga.v2 through 'import pkga.v1.models')
+        [[DYN, ['import', 'pkga.v1.models', False, None], ['bind', 's1', 'pkga.v2.models.build', 'x', 8],
+          ['bind', '', 'pkga.v1.models.build', 'y', 2]]],
+        [[DYN, ['import', 'pkga.v2.models', False, None], ['import', 'pkga.v1.models', False, None], ['bind', '', 'pkga.v1.models.build', 'x', 1],
+          ['bind', '', 'pkga.v2.models.build', 'x', 2], ['bind', '', 'pkga.util.f', 'r', [[], 'pkga.deep.mod.f']]]],
+        # one module recorded under two aliases and without one
+        [[DYN, ['import', 'pkgb.util', False, 'u'], ['import', 'pkgb.util', False, 'u2'], ['import', 'pkgb.util', False, None],
+          ['bind', '', 'u2.f', 'x', 1], ['bind', '', 'pkgb.util.f', 'y', 2], ['bind', 's1', 'u.f', 'x', 3]]],
     ]
 
   def gen(self, rng, tier):
